@@ -103,14 +103,23 @@ pub fn adapt_to_encoding(input: &[u8], enc: &'static Encoding) -> Vec<u8> {
     if enc == encoding_rs::UTF_8 {
         return input.to_vec();
     }
+    let generic;
     let repl: &[u8] = if enc == encoding_rs::SHIFT_JIS {
-        &[0x83, 0x41] // ア: trail byte is ASCII 'A'
+        &[0x83, 0x41] // U+30A2: trail byte is ASCII 'A'
     } else if enc == encoding_rs::GB18030 {
         &[0x81, 0x30, 0x81, 0x30] // four-byte sequence with ASCII-digit trail bytes
     } else if enc == encoding_rs::BIG5 || enc == encoding_rs::GBK || enc == encoding_rs::EUC_KR {
         &[0xA4, 0x40 + 0x21]
     } else {
-        &[0xE9]
+        // the first of a few characters the encoding can represent
+        generic = ["\u{e9}", "\u{416}", "\u{30a2}", "\u{3b1}", "\u{5d0}", "\u{e01}", "\u{4e2d}"]
+            .iter()
+            .find_map(|c| {
+                let (b, _, unmappable) = enc.encode(c);
+                (!unmappable && !b.is_ascii()).then(|| b.into_owned())
+            })
+            .unwrap_or_else(|| vec![0xE9]);
+        &generic
     };
     let mut out = Vec::with_capacity(input.len());
     let mut i = 0;
@@ -124,6 +133,10 @@ pub fn adapt_to_encoding(input: &[u8], enc: &'static Encoding) -> Vec<u8> {
         }
     }
     out
+}
+
+pub fn all_encodings() -> Vec<&'static Encoding> {
+    lol_html::test_utils::ASCII_COMPATIBLE_ENCODINGS.to_vec()
 }
 
 /// An input space: all sequences over an alphabet up to a length.
